@@ -55,15 +55,15 @@ pub fn commit_reversed_operations(
     txn: &mut dyn StorageTxn,
     undo_ops: Operations,
 ) -> (r: Result<bool>)
-    requires old(txn).inv(), !old(txn).st().committed,
+    requires old(txn).inv(),
     ensures final(txn).inv(),
-        //@ob C07 C04 commit_reversed_operations.an-error-leaves-the-transaction-uncommitted
-        r is Err ==> !final(txn).st().committed,
+        //@ob C07 C04 commit_reversed_operations.an-error-leaves-the-stored-replica-untouched
+        r is Err ==> final(txn).stored() == old(txn).stored(),
         r matches Ok(b) ==> {
             let s0 = old(txn).st(); let u0 = s0.unsynced; let un = undo_ops@;
             if tail_match(u0, un) {
                 //@ob C07 commit_reversed_operations.exactly-the-given-operations-leave-the-unsynchronized-list-and-the-transaction-is-committed
-                &&& final(txn).st().committed
+                &&& final(txn).stored() == final(txn).st()
                 &&& final(txn).st().unsynced == u0.take(u0.len() - un.len())
                 &&& final(txn).st().base == s0.base && final(txn).st().ws == s0.ws && final(txn).st().synced == s0.synced
                 //@ob C07 commit_reversed_operations.tasks-return-to-the-state-before-the-undone-operations
@@ -72,7 +72,7 @@ pub fn commit_reversed_operations(
                 &&& (exists|i: int| 0 <= i < un.len() && !(#[trigger] un[i] is UndoPoint)) ==> b
             } else {
                 //@ob C07 commit_reversed_operations.otherwise-nothing-changes-and-failure-is-reported
-                !b && final(txn).st() == s0
+                !b && final(txn).st() == s0 && final(txn).stored() == old(txn).stored()
             }
         },
 {
@@ -109,7 +109,7 @@ pub fn commit_reversed_operations(
     for op in it_op: undo_ops
         invariant
             s0 == old(txn).st(), u0 == s0.unsynced, t0 == s0.tasks, tail_match(u0, un), n == un.len(),
-            txn.inv(), !txn.st().committed,
+            txn.inv(), txn.stored() == old(txn).stored(),
             it_op.seq().len() == n,
             forall|j: int| 0 <= j < n ==> (#[trigger] it_op.seq()[j]) == un[n - 1 - j],
             txn.st() == (TxnView { tasks: txn.st().tasks, unsynced: u0.take(u0.len() - it_op.index()), ..s0 }),
@@ -124,7 +124,7 @@ pub fn commit_reversed_operations(
         proof { lemma_rev_shape_undoes(opj, rev_ops@); }
         for op in it_op2: rev_ops
             invariant
-                txn.inv(), !txn.st().committed,
+                txn.inv(), txn.stored() == old(txn).stored(),
                 txn.st() == (TxnView { tasks: txn.st().tasks, unsynced: u0.take(u0.len() - j), ..s0 }),
                 txn.st().tasks == apply_seq(tk, it_op2.seq().take(it_op2.index() as int)),
                 it_op2.index() > 0 ==> applied,
